@@ -79,6 +79,12 @@ func (l *Lexer) NextToken() (lexer.Token, error) {
 		// Read the next character from the input stream.
 		r, err := l.in.Next()
 		if err != nil {
+			// If the input ends while a lexeme is pending, the lexeme is evaluated first.
+			// The end of the input is then reported by the next call.
+			if curr != 0 && errors.Is(err, io.EOF) {
+				return l.emit(curr)
+			}
+
 			return lexer.Token{}, err
 		}
 
@@ -89,19 +95,24 @@ func (l *Lexer) NextToken() (lexer.Token, error) {
 			// Retract one character, as the last read character did not belong to the current token.
 			l.in.Retract()
 
-			// Evaluate the final state of the DFA.
-			token := l.evalDFA(curr)
-
-			switch token.Terminal {
-			case ERR:
-				return lexer.Token{}, errors.New(token.Lexeme)
-			case WS, EOL, COMMENT:
-				// Skip whitespaces, newlines, and comments.
-				return l.NextToken()
-			default:
-				return token, nil
-			}
+			return l.emit(curr)
 		}
+	}
+}
+
+// emit evaluates the final state of the DFA and returns the corresponding token.
+// Whitespaces, newlines, and comments are skipped and the next token is returned instead.
+func (l *Lexer) emit(state int) (lexer.Token, error) {
+	token := l.evalDFA(state)
+
+	switch token.Terminal {
+	case ERR:
+		return lexer.Token{}, errors.New(token.Lexeme)
+	case WS, EOL, COMMENT:
+		// Skip whitespaces, newlines, and comments.
+		return l.NextToken()
+	default:
+		return token, nil
 	}
 }
 
